@@ -576,6 +576,7 @@ type inliner struct {
 type errThread struct {
 	errIdx          int
 	lErr, lOk, lChk string
+	lEnd            string
 	usedChk         bool
 	usedErr         bool
 	nilness         map[token.Pos]string // position of a return in the helper -> "nil" / "nonnil" / ""
@@ -1019,7 +1020,7 @@ func (x *inliner) expand(call *ast.CallExpr, h *FuncInfo, mode int, lhs []ast.Ex
 							})
 						}
 						res = append(res, dup...)
-						target = x.thread.lOk
+						target = x.thread.lEnd // behind the whole if statement
 					} else {
 						x.thread.usedErr = true
 					}
@@ -1522,7 +1523,7 @@ func (x *inliner) rewriteList(list0 []ast.Stmt) []ast.Stmt {
 			if c, ok := ast.Unparen(as.Rhs[0]).(*ast.CallExpr); ok {
 				if h := x.helperOfCall(c); h != nil {
 					if is, ok := list[i+1].(*ast.IfStmt); ok && is.Init == nil {
-						if e, isEq, isNil := nilTest(x.info, is.Cond); isNil && !isEq {
+						if e, isEq, isNil := nilTest(x.info, is.Cond); isNil {
 							errIdx := -1
 							for k, l := range as.Lhs {
 								if o := objOf(x.info, l); o != nil && o == objOf(x.info, e) && isErrorType(o.Type()) {
@@ -1532,9 +1533,22 @@ func (x *inliner) rewriteList(list0 []ast.Stmt) []ast.Stmt {
 							if errIdx >= 0 && h.Obj.Type().(*types.Signature).Results().Len() == len(as.Lhs) {
 								*x.seq++
 								n := *x.seq
-								th := &errThread{errIdx: errIdx, lErr: fmt.Sprintf("inl_err_%d", n), lOk: fmt.Sprintf("inl_ok_%d", n), lChk: fmt.Sprintf("inl_chk_%d", n)}
+								th := &errThread{errIdx: errIdx, lErr: fmt.Sprintf("inl_err_%d", n), lOk: fmt.Sprintf("inl_ok_%d", n), lChk: fmt.Sprintf("inl_chk_%d", n), lEnd: fmt.Sprintf("inl_end_%d", n)}
 								th.nilness = x.errNilness(h, errIdx)
-								th.errBody = is.Body.List
+								var elseList []ast.Stmt
+								switch el := is.Else.(type) {
+								case *ast.BlockStmt:
+									elseList = append(elseList, el.List...)
+								case nil:
+								default:
+									elseList = append(elseList, el)
+								}
+								// `if err != nil {E} else {O}` or `if err == nil {O} else {E}`
+								errStmts, okStmts := is.Body.List, elseList
+								if isEq {
+									errStmts, okStmts = elseList, is.Body.List
+								}
+								th.errBody = errStmts
 								th.cond = is.Cond
 								x.thread = th
 								pre := x.hoistArgs(c)
@@ -1551,26 +1565,23 @@ func (x *inliner) rewriteList(list0 []ast.Stmt) []ast.Stmt {
 									out = append(out, pre...)
 									out = append(out, st...)
 									if th.usedChk {
-										out = append(out, lab(th.lChk, &ast.IfStmt{If: pos, Cond: is.Cond, Body: &ast.BlockStmt{Lbrace: pos, List: []ast.Stmt{jump(th.lErr)}, Rbrace: pos}}))
-										out = append(out, jump(th.lOk))
+										onTrue, onFalse := th.lErr, th.lOk
+										if isEq {
+											onTrue, onFalse = th.lOk, th.lErr
+										}
+										out = append(out, lab(th.lChk, &ast.IfStmt{If: pos, Cond: is.Cond, Body: &ast.BlockStmt{Lbrace: pos, List: []ast.Stmt{jump(onTrue)}, Rbrace: pos}}))
+										out = append(out, jump(onFalse))
 									}
 									if th.usedChk || th.usedErr {
-										errList := append(append([]ast.Stmt{}, is.Body.List...), jump(th.lOk))
+										errList := append(append([]ast.Stmt{}, errStmts...), jump(th.lEnd))
 										out = append(out, lab(th.lErr, &ast.BlockStmt{Lbrace: pos, List: errList, Rbrace: is.Body.End()}))
 									}
-									var okList []ast.Stmt
-									switch el := is.Else.(type) {
-									case *ast.BlockStmt:
-										okList = append(okList, el.List...)
-									case nil:
-									default:
-										okList = append(okList, el)
-									}
-									if len(okList) > 0 {
-										out = append(out, lab(th.lOk, &ast.BlockStmt{Lbrace: pos, List: okList, Rbrace: is.End()}))
+									if len(okStmts) > 0 {
+										out = append(out, lab(th.lOk, &ast.BlockStmt{Lbrace: pos, List: append([]ast.Stmt{}, okStmts...), Rbrace: is.End()}))
 									} else {
 										out = append(out, lab(th.lOk, &ast.EmptyStmt{Semicolon: pos, Implicit: true}))
 									}
+									out = append(out, lab(th.lEnd, &ast.EmptyStmt{Semicolon: pos, Implicit: true}))
 									skip = true
 									continue
 								}
